@@ -49,12 +49,20 @@ def main():
     if args.replay:
         with open(args.replay) as f:
             data = json.load(f)
+        if isinstance(data.get("case"), dict) and data["case"].get("mode") == "runaway":
+            # a task that ran away cannot be replayed in isolation more cheaply than the check itself
+            print("runaway task: re-running the %s tier of %s" % (args.tier, args.prop))
+            os.environ["VERIF_TIER_ACTIVE"] = args.tier
+            ctx = core.Context(mod.PROPERTY, mod.LEVEL, args.tier, seed)
+            mod.run(ctx)
+            sys.exit(1 if "__runaway__" in ctx.violations or ctx.violations else 0)
         res = mod.recheck(core.unjson(data["case"]))
         for sig, what in res:
             print("REPRODUCED %s: %s" % (sig, what))
         if not res:
             print("case does not violate the property on this tree")
         sys.exit(1 if res else 0)
+    os.environ["VERIF_TIER_ACTIVE"] = args.tier
     ctx = core.Context(mod.PROPERTY, mod.LEVEL, args.tier, seed)
     mod.run(ctx)
     rc = core.finish(ctx, mod)
